@@ -199,6 +199,28 @@ CLAIMED["C19"] = dict(
     technique="TLA+ post-condition specification; result validation by TLC",
 )
 
+CLAIMED["C12"] = dict(
+    category="model_checking",
+    text="Iso.tla over WordUniverse.tla: for every constructed bijection (pairs from a pool of specifications found under the "
+         "three rule databases with plain / symmetry / inferral packs, mirror pairs forced in; pairs returned by the parallel "
+         "finder under C13; bijections reloaded from JSON) the complete map and inverse tables for n <= 6 are judged by TLC: into "
+         "the second class's objects of the same size, one-to-one, onto, both inverse laws; the isomorphism test is symmetric and "
+         "reflexive on specifications whose verified classes are atoms. Nothing is demanded when no bijection is returned.",
+    design_ref="DESIGN.md 3/C12",
+    note="Trusted: TLC; objects are enumerated from the fixture classes and checked by TLC to be exactly Objs(c, n).",
+    technique="TLA+ ground-truth specification of bijectivity; result validation by TLC",
+)
+CLAIMED["C13"] = dict(
+    category="model_checking",
+    text="Every ordered pair of searchers (start classes x {plain, symmetry, inferral, both}) x both finder variants: TLC judges "
+         "the outcome (nothing / pair; any exception is a violation of totality), that a returned pair is isomorphic and yields a "
+         "bijection (whose tables are judged as in C12), and that each returned specification is valid and enumerates its own "
+         "start class (SpecValid.tla / WordUniverse.tla, C01/C02 clauses).",
+    design_ref="DESIGN.md 3/C13",
+    note="Trusted: TLC. Preconditions of the finder respected: default rule database, atom verification.",
+    technique="TLA+ specifications (Iso, SpecValid, WordUniverse); result validation by TLC over all pairs",
+)
+
 NOT_YET = {}
 
 ALL = ["C%02d" % i for i in range(1, 21)]
